@@ -292,9 +292,9 @@ def run_scenario(sc, base, fast=True, mode='each', real_passes=None, on_test=Non
                         code = EXC_CODES.get(type(e).__name__, 50)
                         if isinstance(e, shim.Budget):
                             o.diverged = True
-                    note_cwd()
                         # the statistics object refuses the next start() after an aborted pass
                         stats.last_pass_name = None
+                    note_cwd()
                     w1, f1, e1 = stat_of(p)
                     b, x = counts()
                     d = joint()
